@@ -365,7 +365,7 @@ def _strategy(tier):
     return st.one_of(good, good, good, good, bad)
 
 
-PANEL = ["http://:s3cret@www.example.com/a/amp/?x=1", "https://news.example.org/article/amp/", "http://www.lemonde.fr/index.html", "https://m.forum-m.example.com:8080/a/b/?utm_source=x&id=2&a=1#top", "User:Pw@mobile.amp-site.co.uk/amp/",
+PANEL = ["http://xn--9ca.xn--99999.example.fr/p", "http://www.xn--0.xn--mnchen-3ya.de/", "http://:s3cret@www.example.com/a/amp/?x=1", "https://news.example.org/article/amp/", "http://www.lemonde.fr/index.html", "https://m.forum-m.example.com:8080/a/b/?utm_source=x&id=2&a=1#top", "User:Pw@mobile.amp-site.co.uk/amp/",
          "//amp.www2.example.org/story.amp.html?amp&b=2&a=1#/route", "HTTP://WWW.Example.COM:80/A/B/Default.aspx?ref=fb&ref=other#!/x",
          "example.com/a/../b/./index.php?x=1&amp;y=2&amp%3Bz=3", "https://xn--9ca.wwww.fr/é/?é=ü", "http://m.com/", "http://www.com/index",
          "https://user@www.example.com:443/amp?s=12&s=123&m=1&m=2", "http://example.com/x.amp/#", "example.com?fbclid=1", "https://fr.wikipedia.org/wiki/Amp"]
